@@ -431,6 +431,42 @@ func scenarioC13(c *hlib.RunCtx) *hlib.Violation {
 		sample = append(sample, fmt.Sprintf("chart %s..%s missing=%v", start, end, missing))
 		s.Logf("op", "chart %s..%s missing=%v bytes=%d", start, end, missing, len(first))
 	}
+	// A late report arrives for a day that was already merged and charted: the
+	// day is merged again (the worker does so daily for the past week) and the
+	// chart of that day must count it.
+	if viol == nil && t.Bool(1, 2) {
+		d := t.Draw(ndays)
+		if d != skipDay {
+			date := refcal.Date(day0 + d)
+			r := &rep{Week: date, X: 0.4375 + float64(t.Draw(1000))/float64(1<<20), Config: "v0.1.0"}
+			for _, o := range stored[date] {
+				if o.X == r.X {
+					r = nil
+					break
+				}
+			}
+			if r != nil {
+				pc := ucfg.Programs[0]
+				r.Programs = []*prog{{Program: pc.Name, Version: pc.Versions[0], GoVersion: ucfg.GoVersion[0], GOOS: ucfg.GOOS[0], GOARCH: ucfg.GOARCH[0], Counters: map[string]int64{"plain": 1}, Stacks: map[string]int64{}}}
+				js, _ := json.Marshal(r)
+				put(fmt.Sprintf("%s/%g.json", date, r.X), js)
+				stored[date] = append(stored[date], r)
+				rec := httptest.NewRecorder()
+				handleMerge(api).ServeHTTP(rec, httptest.NewRequest("GET", "/merge/?date="+date, nil))
+				os.Remove(filepath.Join(dir, "charts", date+".json"))
+				rec = httptest.NewRecorder()
+				handleChart(cfg, api).ServeHTTP(rec, httptest.NewRequest("GET", "/chart/?date="+date, nil))
+				if rec.Code != 200 {
+					fail("chart-failed", "charting %s after a late report answered %d: %s", date, rec.Code, rec.Body.String())
+				} else if out, err := os.ReadFile(filepath.Join(dir, "charts", date+".json")); err != nil {
+					fail("chart-missing", "chart object %s.json missing after a late report", date)
+				} else {
+					checkChart(out, ucfg, stored, day0, d, d, fail)
+				}
+				s.Probe("late-report-remerged")
+			}
+		}
+	}
 	c.Sample = map[string]any{"days": ndays, "ops": sample, "programs": len(ucfg.Programs)}
 	return viol
 }
